@@ -611,8 +611,15 @@ func (p *C04) Shrinks(c *Case) []*Case {
 	}
 	for _, b := range ShrinkBytes(c.Steps[0].Stdin.Data) {
 		d := c.Clone()
+		old := c.Steps[0].Stdin.Data
 		for i := range d.Steps {
 			d.Steps[i].Stdin.Data = b
+			// the FILE variant reads the same text from a file
+			for _, f := range d.Steps[i].Files {
+				if f != nil && bytes.Equal(f.Data, old) {
+					f.Data = b
+				}
+			}
 		}
 		out = append(out, d)
 	}
